@@ -316,7 +316,7 @@ func ruleIndentState(c *Ctx) []Obligation {
 			if !isIf {
 				continue
 			}
-			if derivesFrom(ifi.Cond, func(x ssa.Value) bool { _, f, _ := loadedField(x); return f == m.fPartial }) {
+			if derivesThroughCalls(ifi.Cond, func(x ssa.Value) bool { _, f, _ := loadedField(x); return f == m.fPartial }) {
 				for _, l := range liftAll(ifi, m.write, 0) {
 					if blockReaches(l.Block(), m.under.Block(), nil) {
 						decided = true
